@@ -1,28 +1,26 @@
 //go:build verif
 
 // Add-only verification hook (L3, controlled schedules), injected into package models with `go build -overlay`.
-// Read at quiescence only (no scheduler thread is running), with the real locks.
+// Read at quiescence only (no scheduler thread is running).  Fields are found by type, not by name (see
+// zz_verif_hooks.go).
 package models
 
 import "sort"
 
 // VerifIDs is the state of the session-id generator: counter and reusable ids (ascending).
 func (s *SessionStore) VerifIDs() (cur uint32, reusable []uint32) {
-	s.ids.mutex.Lock()
-	defer s.ids.mutex.Unlock()
-	for id := range s.ids.reusableIDs {
+	g := verifMust(s, SequentialIDGenerator{}).Addr().Interface().(*SequentialIDGenerator)
+	for id := range verifMust(g, map[uint32]struct{}{}).Interface().(map[uint32]struct{}) {
 		reusable = append(reusable, id)
 	}
 	sort.Slice(reusable, func(i, j int) bool { return reusable[i] < reusable[j] })
-	return s.ids.currentID, reusable
+	return verifMust(g, uint32(0)).Interface().(uint32), reusable
 }
 
 // VerifParticipantIDs is the membership of the session object (ascending), registered or not.
 func (s *Session) VerifParticipantIDs() []uint32 {
-	s.participantMutex.RLock()
-	defer s.participantMutex.RUnlock()
 	var out []uint32
-	for id := range s.participants {
+	for id := range s.verifParticipants() {
 		out = append(out, id)
 	}
 	sort.Slice(out, func(i, j int) bool { return out[i] < out[j] })
@@ -31,10 +29,9 @@ func (s *Session) VerifParticipantIDs() []uint32 {
 
 // VerifRegistered: is this very object what the store resolves its id to?
 func (s *SessionStore) VerifRegistered(x *Session) bool {
-	s.mutex.RLock()
-	defer s.mutex.RUnlock()
-	if s.sessions == nil {
+	m := s.verifSessions()
+	if m == nil {
 		return false
 	}
-	return s.sessions[s.GlobalSessionID(x.ID)] == x
+	return m[s.GlobalSessionID(x.ID)] == x
 }
